@@ -815,7 +815,8 @@ pub async fn run_ops(mw: &mut dyn Mw, ops: &[String]) {
                 let kv = Kv::parse(&words[1..]);
                 mw.probe(words.get(1).cloned().unwrap_or(""), &kv);
             }
-            "manual" if words.get(1) == Some(&"ondrop") => {
+            "manual" if words.get(1) == Some(&"ondrop") && mw.requester().is_some() => {
+                // (an adapter without `requester()` may implement `manual ondrop` itself: mw_coalesce.rs)
                 let kv = Kv::parse(&words[2..]);
                 if let (Some(c), Some(c2), Some(r)) = (kv.opt_u64("c"), kv.opt_u64("by"), mw.requester()) {
                     let rest: Vec<&str> = words[2..].iter().cloned().filter(|w| !w.starts_with("c=") && !w.starts_with("by=")).collect();
